@@ -73,6 +73,8 @@ HeldIssues(strict, prev, obs, e, h) ==
       ELSE IF obs = 0 THEN {Issue("C17", <<"rejected batch still pending", e.id, h>>)} ELSE {})
   ELSE IF strict.k = "unconv" THEN
      (IF obs = h THEN {Issue("C13", <<"unconvertible conversion executed", e.id, h>>)}
+                      \* with PIP-10 the only admissible prices are min(spot, average) / max(spot, average): executing without an average is also mispricing
+                      \cup (IF h >= Act("PIP10") THEN {Issue("C07", <<"conversion executed although no average exists to price it with", e.id, h>>)} ELSE {})
       ELSE IF obs = 0 /\ ~("DevConvertErrDropped" \in Deviations /\ h < Act("V20"))
            THEN {Issue("C17", <<"unconvertible batch stays pending forever", e.id, h>>)} ELSE {})
   ELSE IF strict.c = -1 THEN
